@@ -354,9 +354,10 @@ def r_objective_fresh(ctx, first_send=None, rule="R-FRESH"):
         first_send = common.stmt_of(min(sends, key=lambda c: c.lineno))
     objs = [s for s in flow.stmts_of(root, ast.Assign) if any(dotted(t) == "self.objective" for t in s.targets)]
     ok = any(isinstance(s.value, ast.Call) and call_name(s.value) == "Expression" and flow.dominates(s, first_send) for s in objs) and len(objs) == 1
-    ctx.ob(rule, "PEP.%s::fresh objective leaf" % root.name, ok,
-           "a new objective leaf is created at each solve before anything is sent" if ok else
-           "the objective is not a fresh leaf created on every path before the first send", loc(root, objs[0] if objs else first_send))
+    from . import solveprog
+    solveprog.ob_unless_program(ctx, {"drain", "generate"}, rule, "PEP.%s::fresh objective leaf" % root.name, ok,
+                                "a new objective leaf is created at each solve before anything is sent" if ok else
+                                "the objective is not a fresh leaf created on every path before the first send", loc(root, objs[0] if objs else first_send))
 
 
 def r_fresh(ctx):
@@ -408,10 +409,11 @@ def r_fresh(ctx):
         rebinds = [s for s in flow.stmts_of(root, ast.Assign) if any(dotted(t) == "self." + attr for t in s.targets)
                    and _is_mutable_container(s.value) and _empty_container(s.value)]
         ok = any(flow.dominates(s, first_send) and not flow.in_loop(s) for s in rebinds)
-        ctx.ob("R-FRESH", "PEP.%s::fresh %s" % (root.name, attr), ok,
-               "rebound to a new empty list before the first send" if ok else
-               "`self.%s` is not rebound to a fresh empty list on every path before the first send: it keeps the entries of earlier solves" % attr,
-               loc(root, first_send))
+        from . import solveprog
+        solveprog.ob_unless_program(ctx, {"track"}, "R-FRESH", "PEP.%s::fresh %s" % (root.name, attr), ok,
+                                    "rebound to a new empty list before the first send" if ok else
+                                    "`self.%s` is not rebound to a fresh empty list on every path before the first send: it keeps the entries of earlier solves" % attr,
+                                    loc(root, first_send))
         # the tracking list never becomes another name of a container that outlives the solve
         for s in flow.stmts_of(root, ast.Assign):
             if not any(dotted(t) == "self." + attr for t in s.targets):
@@ -450,9 +452,10 @@ def r_fresh(ctx):
         if calls:
             lp = flow.in_loop(common.stmt_of(calls[0]))
             ok = lp is not None and flow.dominates(lp, first_send)
-        ctx.ob("R-FRESH", "PEP.%s::regenerate %s" % (root.name, what), ok,
-               "%s are regenerated for every owner before the first send" % what if ok else
-               "%s are not regenerated (call of %s in a loop dominating the sends not found)" % (what, meth), loc(root, first_send))
+        from . import solveprog
+        solveprog.ob_unless_program(ctx, {"drain"}, "R-FRESH", "PEP.%s::regenerate %s" % (root.name, what), ok,
+                                    "%s are regenerated for every owner before the first send" % what if ok else
+                                    "%s are not regenerated (call of %s in a loop dominating the sends not found)" % (what, meth), loc(root, first_send))
 
 
 def _empty_container(v):
